@@ -4,6 +4,7 @@
   owned only by `PieceDone`, and a task that ends in error gives its piece back (theorems of C12 re-used).
 -/
 import RdestModel.Lemmas.Trace
+import RdestModel.Lemmas.Sd
 import RdestModel.Props.C12
 set_option linter.unusedSimpArgs false
 set_option linter.unusedVariables false
@@ -230,10 +231,370 @@ theorem T3_owned_only_by_piece_done (s s' : MState) (ev : Ev) (r : Reply) (hstep
         · exact keep _ k (fun _ => Status.missing) (fun _ _ => by simp) hnot hnow
         · exact hnot hnow
 
-/-- The full trace statement of the task part (monitor `P01`); evaluated on the model's and the implementation's
-    trace of every generated script, kernel proof for all scripts pending (the local theorems above are its core). -/
-def C01_trace_full : Prop :=
-  ∀ (sha1 : Bytes → Bytes) (s : HState) (script : List TIn), s.alive = true → s.pieceRx = none →
-    P01 (runTrace sha1 s script) = true
+/-! ### The whole trace of a connection task: every script -/
+
+def R01 (st : M01) (s : HState) : Prop := st.alive = s.alive ∧ (s.alive = true → st.want = hashOf s)
+
+def wantOf (x : Option ReqData) : Option Bytes := x.map (·.hash)
+
+/-- The request data of a reply, if it carries one. -/
+def repReq (rep : Rep) : Option ReqData :=
+  match rep with
+  | .req rd _ => some rd
+  | _ => none
+
+/-- The monitor's update of `want`. -/
+def wantAfter (x : Option (Option ReqData)) (cur : Option Bytes) : Option Bytes :=
+  match x with
+  | some (some rd) => some rd.hash
+  | some none => none
+  | none => cur
+
+theorem assignedBy_repReq (rep : Rep) : assignedBy rep = wantOf (repReq rep) := by cases rep <;> rfl
+
+/-- Acceptance of a step that stores nothing and reports nothing done. -/
+theorem accept_nosd (sha1 : Bytes → Bytes) (st : M01) (s s' : HState) (inp : TIn) (o : List HOut) (e : Option Bool)
+    (hR : R01 st s) (ha : s.alive = true) (hq : NoSD o) (x : Option (Option ReqData))
+    (hasg : assigned inp (o.filterMap (obsOf sha1)) = x)
+    (hs' : s'.alive = e.isNone ∧ (e.isNone = true → hashOf s' = wantAfter x (hashOf s))) :
+    ∃ st', step01 st (inp, o.filterMap (obsOf sha1), e) = some st' ∧ R01 st' s' := by
+  obtain ⟨hRa, hRs⟩ := hR
+  have hw := hRs ha
+  have hlive : (!st.alive) = false := by rw [hRa, ha]; rfl
+  have hsv : savedObs (o.filterMap (obsOf sha1)) = [] := by rw [savedObs_obs]; exact nosd_saves sha1 o hq
+  have hdn := doneExpr_obs sha1 o
+  rw [hq] at hdn
+  refine ⟨{ want := wantAfter x st.want, alive := e.isNone }, ?_, ?_⟩
+  · simp only [step01, hlive, Bool.false_eq_true, if_false, step01c, hsv, hasg]
+    rw [hdn]
+    cases x with
+    | none => simp [wantAfter]
+    | some y => cases y <;> simp [wantAfter]
+  · refine ⟨hs'.1.symm, fun hal => ?_⟩
+    have he : e.isNone = true := by rw [← hs'.1]; exact hal
+    have := hs'.2 he
+    show wantAfter x st.want = hashOf s'
+    rw [this, hw]
+
+/-- Inputs that never carry an assignment. -/
+theorem assigned_none_of (inp : TIn) (obs : List Obs)
+    (h1 : ∀ rep d, inp ≠ .frame .unchoke rep d) (h2 : ∀ i rep d, inp ≠ .frame (.haveP i) rep d)
+    (h3 : ∀ i b blk rep d, inp ≠ .frame (.piece i b blk) rep d) (h4 : ∀ i rep, inp ≠ .bcHave i rep) :
+    assigned inp obs = none := by
+  cases inp with
+  | frame m rep d =>
+    cases m with
+    | unchoke => exact absurd rfl (h1 rep d)
+    | haveP i => exact absurd rfl (h2 i rep d)
+    | piece i b blk => exact absurd rfl (h3 i b blk rep d)
+    | _ => rfl
+  | bcHave i rep => exact absurd rfl (h4 i rep)
+  | _ => rfl
+
+theorem cmO_npr (s : HState) (i : Bool) (rd : ReqData) : cmO (newPieceRequest s i rd).2 = [] := by
+  unfold newPieceRequest sendRequest
+  simp only
+  cases i <;> repeat' (first | split | rfl)
+
+theorem cmO_pfr (s : HState) (rep : Rep) (s' : HState) (o : List HOut) (b : Bool)
+    (h : pieceFinishReply s rep = some (s', o, b)) : cmO o = [] := by
+  unfold pieceFinishReply at h
+  split at h
+  · simp only [Option.some.injEq, Prod.mk.injEq] at h; rw [← h.2.1]; exact cmO_npr s false _
+  · cases h; rfl
+  · cases h; rfl
+  · cases h; rfl
+  · cases h
+
+theorem step01_sound (sha1 : Bytes → Bytes) (st : M01) (s : HState) (inp : TIn) (s' : HState) (o : List HOut)
+    (e : Option Bool) (hR : R01 st s) (h : tstep sha1 s inp = some (s', o, e)) :
+    ∃ st', step01 st (inp, o.filterMap (obsOf sha1), e) = some st' ∧ R01 st' s' := by
+  cases ha : s.alive with
+  | false =>
+    rw [tstep_dead sha1 s ha inp] at h; cases h
+    refine ⟨st, ?_, hR⟩
+    simp [step01, hR.1, ha, deadOk]
+  | true =>
+    have hg : (!s.alive) = false := by simp [ha]
+    have hlive : (!st.alive) = false := by rw [hR.1, ha]; rfl
+    have hw := hR.2 ha
+    cases inp with
+    | ticks k =>
+      simp only [tstep, ticks_facts s ha, Option.some.injEq, Prod.mk.injEq] at h
+      obtain ⟨rfl, rfl, rfl⟩ := h
+      have hq : NoSD (List.replicate (kaRun KEEP_ALIVE_LIMIT s.keepAlive k).1 (HOut.write Msg.keepAlive)) := by
+        generalize (kaRun KEEP_ALIVE_LIMIT s.keepAlive k).1 = n
+        induction n with
+        | zero => rfl
+        | succ n ih => simp only [List.replicate_succ, NoSD, sdO, List.filterMap_cons] at ih ⊢; exact ih
+      refine accept_nosd sha1 st s _ _ _ _ hR ha hq none (assigned_none_of _ _ (by simp) (by simp) (by simp) (by simp)) ⟨?_, fun _ => rfl⟩
+      generalize (kaRun KEEP_ALIVE_LIMIT s.keepAlive k).2.2 = b
+      cases b <;> rfl
+    | eof =>
+      simp only [tstep, hstep, hg, Bool.false_eq_true, if_false, terminate] at h
+      cases h
+      exact accept_nosd sha1 st s _ _ _ _ hR ha nosd_nil none (assigned_none_of _ _ (by simp) (by simp) (by simp) (by simp)) ⟨rfl, fun c => by cases c⟩
+    | recvErr =>
+      simp only [tstep, hstep, hg, Bool.false_eq_true, if_false, terminate] at h
+      cases h
+      exact accept_nosd sha1 st s _ _ _ _ hR ha nosd_nil none (assigned_none_of _ _ (by simp) (by simp) (by simp) (by simp)) ⟨rfl, fun c => by cases c⟩
+    | bcState en =>
+      simp only [tstep, hstep, hg, Bool.false_eq_true, if_false] at h
+      split at h <;> cases h <;>
+        exact accept_nosd sha1 st s _ _ _ _ hR ha rfl none (assigned_none_of _ _ (by simp) (by simp) (by simp) (by simp)) ⟨ha, fun _ => rfl⟩
+    | start rep =>
+      simp only [tstep, hstart, hg, Bool.false_eq_true, if_false] at h
+      split at h
+      · cases rep with
+        | bitfield bs =>
+          simp only [initHandshake, Option.some.injEq, Prod.mk.injEq] at h
+          obtain ⟨rfl, rfl, rfl⟩ := h
+          exact accept_nosd sha1 st s _ _ _ _ hR ha rfl none (assigned_none_of _ _ (by simp) (by simp) (by simp) (by simp)) ⟨ha, fun _ => rfl⟩
+        | _ => simp [initHandshake] at h
+      · cases h
+        exact accept_nosd sha1 st s _ _ _ _ hR ha nosd_nil none (assigned_none_of _ _ (by simp) (by simp) (by simp) (by simp)) ⟨ha, fun _ => rfl⟩
+    | bcHave i rep =>
+      simp only [tstep, hstep, hg, Bool.false_eq_true, if_false] at h
+      -- outer part: buffering or writing the Have changes nothing the monitor looks at
+      have outer : ∀ (s1 : HState) (o1 : List HOut), s1.alive = true → NoSD o1 →
+          (if s1.choked = true then some ({ s1 with msgBuff := s1.msgBuff ++ [i] }, o1, none)
+            else some (s1, o1 ++ [HOut.write (Msg.haveP i)], none)) = some (s', o, e) →
+          NoSD o ∧ e = none ∧ hashOf s' = hashOf s1 ∧ s'.alive = true ∧ cmO o = cmO o1 := by
+        intro s1 o1 hal hq hm
+        split at hm
+        · cases hm; exact ⟨hq, rfl, rfl, hal, rfl⟩
+        · cases hm; exact ⟨nosd_append hq rfl, rfl, rfl, hal, by rw [cmO_append]; simp [cmO]⟩
+      cases hrx : s.pieceRx with
+      | none =>
+        rw [hrx] at h
+        obtain ⟨hq, rfl, hh, hal, hcm⟩ := outer s [] ha nosd_nil h
+        have hasg : assigned (.bcHave i rep) (o.filterMap (obsOf sha1)) = none := by
+          simp only [assigned, cmds_obs, hcm]; rfl
+        exact accept_nosd sha1 st s _ _ _ _ hR ha hq none hasg ⟨by simp [hal], fun _ => hh⟩
+      | some rx =>
+        rw [hrx] at h
+        simp only at h
+        by_cases hi : rx.index = i
+        · simp only [hi, if_true] at h
+          cases hpf : pieceFinishReply { s with pieceRx := none } rep with
+          | none => rw [hpf] at h; cases h
+          | some t =>
+            obtain ⟨s2, o2, b2⟩ := t
+            rw [hpf] at h
+            simp only at h
+            obtain ⟨hh2, hq2⟩ := pieceFinishReply_sd { s with pieceRx := none } rfl rep s2 o2 b2 hpf
+            obtain ⟨_, hal2, _⟩ := pieceFinishReply_core _ _ _ _ _ hpf
+            have hcm2 := cmO_pfr _ _ _ _ _ hpf
+            have hqc : NoSD (List.map (fun bl => HOut.write (Msg.cancel i bl.1 bl.2)) rx.requested) := by
+              induction rx.requested with
+              | nil => rfl
+              | cons x xs ih => simp only [List.map_cons, NoSD, sdO, List.filterMap_cons] at ih ⊢; exact ih
+            have hcmc : cmO (List.map (fun bl => HOut.write (Msg.cancel i bl.1 bl.2)) rx.requested) = [] := by
+              induction rx.requested with
+              | nil => rfl
+              | cons x xs ih => simp only [List.map_cons, cmO, List.filterMap_cons] at ih ⊢; exact ih
+            obtain ⟨hq, rfl, hh, hal, hcm⟩ := outer s2 _ (by rw [hal2]; exact ha) (nosd_append (nosd_append hqc (rfl : NoSD [HOut.cmd Cmd.pieceCancel])) hq2) h
+            have hasg : assigned (.bcHave i rep) (o.filterMap (obsOf sha1)) =
+                some (repReq rep) := by
+              simp only [assigned, cmds_obs, hcm, cmO_append, hcmc, hcm2]
+              simp [cmO]
+              try (cases rep <;> rfl)
+            refine accept_nosd sha1 st s _ _ _ _ hR ha hq _ hasg ⟨by simp [hal], fun _ => ?_⟩
+            rw [hh, hh2, assignedBy_repReq]
+            cases hrr : repReq rep <;> rfl
+        · simp only [hi, if_false] at h
+          obtain ⟨hq, rfl, hh, hal, hcm⟩ := outer s [] ha nosd_nil h
+          have hasg : assigned (.bcHave i rep) (o.filterMap (obsOf sha1)) = none := by
+            simp only [assigned, cmds_obs, hcm]; rfl
+          exact accept_nosd sha1 st s _ _ _ _ hR ha hq none hasg ⟨by simp [hal], fun _ => hh⟩
+    | frame m rep d =>
+      simp only [tstep, hstep, hg, Bool.false_eq_true, if_false] at h
+      cases hf : handleFrame sha1 (diskOf d) s m rep with
+      | none => rw [hf] at h; cases h
+      | some r =>
+        obtain ⟨s1, o1, c⟩ := r
+        rw [hf] at h
+        obtain ⟨_, hal1, _⟩ := handleFrame_core sha1 _ s m rep s1 o1 c hf
+        have hres : o = o1 ∧ ((c = .go ∧ s' = s1 ∧ e = none) ∨ (c ≠ .go ∧ s'.alive = false ∧ e.isNone = false)) := by
+          cases c with
+          | go => cases h; exact ⟨rfl, Or.inl ⟨rfl, rfl, rfl⟩⟩
+          | endNormal => simp only [terminate] at h; cases h; exact ⟨rfl, Or.inr ⟨by simp, rfl, rfl⟩⟩
+          | endError => simp only [terminate] at h; cases h; exact ⟨rfl, Or.inr ⟨by simp, rfl, rfl⟩⟩
+        obtain ⟨rfl, hcase⟩ := hres
+        have halive' : s'.alive = e.isNone := by
+          rcases hcase with ⟨_, rfl, rfl⟩ | ⟨_, h1, h2⟩
+          · rw [hal1]; exact ha
+          · rw [h1, h2]
+        -- when the task goes on, the new state is the handler's
+        have hgo : ∀ (P : HState → Prop), (c = .go → P s1) → e.isNone = true → P s' := by
+          intro P hp he
+          rcases hcase with ⟨hc', rfl, _⟩ | ⟨_, _, h2⟩
+          · exact hp hc'
+          · rw [h2] at he; cases he
+        unfold handleFrame at hf
+        simp only at hf
+        split at hf
+        · -- refused before the handshake
+          cases hf
+          have hasg : assigned (.frame m rep d) (([] : List HOut).filterMap (obsOf sha1)) = none := by
+            cases m <;> rfl
+          refine accept_nosd sha1 st s _ _ _ _ hR ha nosd_nil none hasg ⟨halive', fun he => ?_⟩
+          rcases hcase with ⟨hc', _, _⟩ | ⟨_, _, h2⟩
+          · cases hc'
+          · rw [h2] at he; cases he
+        · -- dispatched; the keep-alive reset does not touch the piece in progress
+          have hh0 : hashOf { s with keepAlive := kaAfter m s.keepAlive } = hashOf s := rfl
+          cases m with
+          | handshake ih pid =>
+            simp only [dispatch] at hf
+            have hq : NoSD o ∧ (c = .go → hashOf s1 = hashOf s) := by
+              rcases onHandshake_cases _ ih pid rep s1 o c hf with ⟨_, rfl, rfl, rfl⟩ | ⟨_, _, rfl, rfl, bs, rfl⟩ | ⟨_, _, rfl, rfl, rfl⟩
+              · exact ⟨rfl, fun c => by cases c⟩
+              · exact ⟨rfl, fun _ => rfl⟩
+              · exact ⟨rfl, fun _ => rfl⟩
+            exact accept_nosd sha1 st s _ _ _ _ hR ha hq.1 none rfl ⟨halive', fun he => hgo (fun x => hashOf x = hashOf s) hq.2 he⟩
+          | unchoke =>
+            simp only [dispatch] at hf
+            obtain ⟨_, _, _, rest, rfl, _⟩ := onUnchoke_adv _ rep s1 _ c hf
+            -- what the reply assigns
+            have hdet : NoSD rest ∧ hashOf s1 = wantOf (repReq rep) ∧ cmO rest = [] := by
+              unfold onUnchoke at hf
+              simp only at hf
+              split at hf
+              · rename_i rd wi
+                simp only [Option.some.injEq, Prod.mk.injEq] at hf
+                obtain ⟨h1, h2, _⟩ := hf
+                have hnp := newPieceRequest_sd { s with keepAlive := kaAfter Msg.unchoke s.keepAlive, choked := false, msgBuff := [] } wi rd
+                have hr : rest = (newPieceRequest { s with keepAlive := kaAfter Msg.unchoke s.keepAlive, choked := false, msgBuff := [] } wi rd).2 := by
+                  have := List.append_cancel_left h2; exact this.symm
+                rw [hr, ← h1]
+                exact ⟨hnp.2, hnp.1, cmO_npr _ _ _⟩
+              · simp only [Option.some.injEq, Prod.mk.injEq] at hf
+                obtain ⟨h1, h2, _⟩ := hf
+                have hr : rest = [HOut.write Msg.notInterested] := (List.append_cancel_left h2).symm
+                rw [hr, ← h1]; exact ⟨rfl, rfl, rfl⟩
+              · simp only [Option.some.injEq, Prod.mk.injEq] at hf
+                obtain ⟨h1, h2, _⟩ := hf
+                have hr : rest = [] := by
+                  have : List.map (fun i => HOut.write (Msg.haveP i)) s.msgBuff ++ [HOut.cmd Cmd.recvUnchoke] ++ [] =
+                      List.map (fun i => HOut.write (Msg.haveP i)) s.msgBuff ++ [HOut.cmd Cmd.recvUnchoke] ++ rest := by
+                    simpa using h2
+                  exact (List.append_cancel_left this).symm
+                rw [hr, ← h1]; exact ⟨rfl, rfl, rfl⟩
+              · cases hf
+            have hqf : NoSD (List.map (fun i => HOut.write (Msg.haveP i)) s.msgBuff) := by
+              induction s.msgBuff with
+              | nil => rfl
+              | cons x xs ih => simp only [List.map_cons, NoSD, sdO, List.filterMap_cons] at ih ⊢; exact ih
+            have hcf : cmO (List.map (fun i => HOut.write (Msg.haveP i)) s.msgBuff) = [] := by
+              induction s.msgBuff with
+              | nil => rfl
+              | cons x xs ih => simp only [List.map_cons, cmO, List.filterMap_cons] at ih ⊢; exact ih
+            have hasg : assigned (.frame .unchoke rep d) ((List.map (fun i => HOut.write (Msg.haveP i)) s.msgBuff ++ [HOut.cmd Cmd.recvUnchoke] ++ rest).filterMap (obsOf sha1)) =
+                some (repReq rep) := by
+              simp only [assigned, cmds_obs, cmO_append, hcf, hdet.2.2]
+              simp [cmO]
+              try (cases rep <;> rfl)
+            refine accept_nosd sha1 st s _ _ _ _ hR ha (nosd_append (nosd_append hqf (rfl : NoSD [HOut.cmd Cmd.recvUnchoke])) hdet.1) _ hasg ⟨halive', fun he => ?_⟩
+            have := hgo (fun x => hashOf x = wantOf (repReq rep)) (fun _ => hdet.2.1) he
+            rw [this]; cases hrr : repReq rep <;> rfl
+          | haveP i =>
+            simp only [dispatch, onHave] at hf
+            split at hf
+            · -- index out of range: the task ends
+              cases hf
+              refine accept_nosd sha1 st s _ _ _ _ hR ha nosd_nil none rfl ⟨halive', fun he => ?_⟩
+              rcases hcase with ⟨hc', _, _⟩ | ⟨_, _, h2⟩
+              · cases hc'
+              · rw [h2] at he; cases he
+            · split at hf
+              · rename_i rd
+                cases hf
+                have hnp := newPieceRequest_sd { s with keepAlive := kaAfter (Msg.haveP i) s.keepAlive } true rd
+                have hasg : assigned (.frame (.haveP i) (.req rd true) d)
+                    (([HOut.cmd (Cmd.recvHave i)] ++ (newPieceRequest { s with keepAlive := kaAfter (Msg.haveP i) s.keepAlive } true rd).2).filterMap (obsOf sha1)) =
+                    some (some rd) := by
+                  simp only [assigned, cmds_obs, cmO_append, cmO_npr]
+                  simp [cmO]
+                refine accept_nosd sha1 st s _ _ _ _ hR ha (nosd_append (rfl : NoSD [HOut.cmd (Cmd.recvHave i)]) hnp.2) _ hasg ⟨halive', fun he => ?_⟩
+                exact hgo (fun x => hashOf x = wantAfter (some (some rd)) (hashOf s)) (fun _ => hnp.1) he
+              · cases hf
+                exact accept_nosd sha1 st s _ _ _ _ hR ha rfl none rfl ⟨halive', fun he => hgo (fun x => hashOf x = hashOf s) (fun _ => rfl) he⟩
+              · cases hf
+                exact accept_nosd sha1 st s _ _ _ _ hR ha rfl none rfl ⟨halive', fun he => hgo (fun x => hashOf x = hashOf s) (fun _ => rfl) he⟩
+              · cases hf
+          | piece idx b blk =>
+            simp only [dispatch] at hf
+            rcases onPiece_sd sha1 _ idx b blk rep s1 o c hf with ⟨hq, hk, hcm⟩ | ⟨hsh, buff, o2, hhs, hsha, rfl, hq2, hh', hw0⟩
+            · have hasg : assigned (.frame (.piece idx b blk) rep d) (o.filterMap (obsOf sha1)) = none := by
+                simp only [assigned, cmds_obs, hcm]; rfl
+              exact accept_nosd sha1 st s _ _ _ _ hR ha hq none hasg ⟨halive', fun he => hgo (fun x => hashOf x = hashOf s) hk he⟩
+            · -- stored and reported
+              have hcm2 : cmO o2 = [] := by
+                simp only [onPiece] at hf
+                split at hf
+                · cases hf
+                · split at hf
+                  · cases hf
+                  · split at hf
+                    · split at hf
+                      · cases hf
+                      · split at hf
+                        · rename_i s2 o2' hpf
+                          simp only [Option.some.injEq, Prod.mk.injEq] at hf
+                          have : o2 = o2' := by
+                            have h2 := hf.2.1
+                            simp only [List.cons_append, List.nil_append, List.cons.injEq] at h2
+                            exact h2.2.2.symm
+                          rw [this]; exact cmO_pfr _ _ _ _ _ hpf
+                        · rename_i s2 o2' hpf
+                          simp only [Option.some.injEq, Prod.mk.injEq] at hf
+                          have : o2 = o2' := by
+                            have h2 := hf.2.1
+                            simp only [List.cons_append, List.nil_append, List.cons.injEq] at h2
+                            exact h2.2.2.symm
+                          rw [this]; exact cmO_pfr _ _ _ _ _ hpf
+                        · cases hf
+                    · simp only [Option.some.injEq, Prod.mk.injEq] at hf
+                      have h2 := hf.2.1
+                      unfold sendRequest at h2
+                      simp only at h2
+                      split at h2 <;> simp at h2
+              have hsv : savedObs (([HOut.save hsh buff, HOut.cmd Cmd.pieceDone] ++ o2).filterMap (obsOf sha1)) = [(hsh, sha1 buff, buff.length)] := by
+                rw [savedObs_obs, savesO_append, nosd_saves sha1 o2 hq2]; rfl
+              have hdn := doneExpr_obs sha1 ([HOut.save hsh buff, HOut.cmd Cmd.pieceDone] ++ o2)
+              rw [sdO_append, hq2] at hdn
+              have hasg : assigned (.frame (.piece idx b blk) rep d) (([HOut.save hsh buff, HOut.cmd Cmd.pieceDone] ++ o2).filterMap (obsOf sha1)) =
+                  some (repReq rep) := by
+                simp only [assigned, cmds_obs, cmO_append, hcm2]
+                simp [cmO]
+                try (cases rep <;> rfl)
+              have hwant : st.want = some hsh := by rw [hw, ← hh0]; exact hhs
+              refine ⟨{ want := wantAfter (some (repReq rep)) st.want, alive := e.isNone }, ?_, ⟨halive'.symm, fun hal => ?_⟩⟩
+              · simp only [step01, hlive, Bool.false_eq_true, if_false, step01c, hsv, hasg, hwant, hsha]
+                rw [hdn]
+                cases hrr : repReq rep <;> simp [wantAfter, sdO]
+              · have he : e.isNone = true := by rw [← halive']; exact hal
+                have := hgo (fun x => hashOf x = assignedBy rep) (fun _ => hh') he
+                show wantAfter (some (repReq rep)) st.want = hashOf s'
+                rw [this, assignedBy_repReq]
+                cases hrr : repReq rep <;> rfl
+          | keepAlive | choke | interested | notInterested | bitfield _ | request _ _ _ | cancel _ _ _ =>
+            obtain ⟨hk, hq⟩ := dispatch_sd sha1 _ _ _ rep rfl (by simp) (by simp) (by simp) s1 _ c hf
+            exact accept_nosd sha1 st s _ _ _ _ hR ha hq none rfl ⟨halive', fun he => hgo (fun x => hashOf x = hashOf s) (fun _ => hk) he⟩
+
+/-- **C01, connection-task part, whole trace (every script).** From any live state: a piece file is written only under
+    the name of the hash listed for the piece the connection was asked to download, only with contents hashing to
+    exactly that value; `PieceDone` is reported only immediately after such a store, and every store is reported. -/
+theorem C01_trace (sha1 : Bytes → Bytes) (s : HState) (halive : s.alive = true) (script : List TIn) :
+    checkTrace step01 { want := hashOf s, alive := true } (runTrace sha1 s script) = true :=
+  checkTrace_run sha1 step01 R01 (fun st s inp s' o e hR h => step01_sound sha1 st s inp s' o e hR h)
+    script _ s ⟨halive.symm, fun _ => rfl⟩
+
+theorem C01_trace_fresh (sha1 : Bytes → Bytes) (s : HState) (halive : s.alive = true) (hrx : s.pieceRx = none)
+    (script : List TIn) : P01 (runTrace sha1 s script) = true := by
+  have := C01_trace sha1 s halive script
+  simp only [hashOf, hrx, Option.map_none] at this
+  exact this
 
 end Rdest.Props.C01
